@@ -122,6 +122,7 @@ def bootstrap_dispatch(ov, name):
     )
     dispatch.__signature__ = LazySignature(ov)
     dispatch.__ovld__ = ov
+    dispatch.__bootstrap_code__ = dispatch.__code__
     dispatch.register = ov.register
     dispatch.resolve = ov.resolve
     dispatch.copy = ov.copy
@@ -491,6 +492,24 @@ class Ovld:
             self.compile()
 
     def compile(self):
+        """Finalize this overload (see _compile).
+
+        If anything goes wrong, the ovld goes back to its initial state, so
+        that the next call attempts to compile it again instead of
+        dispatching over a partially filled table.
+        """
+        try:
+            self._compile()
+        except BaseException:
+            self._compiled = False
+            dispatch = getattr(self, "dispatch", None)
+            if dispatch is not None:
+                dispatch.__code__ = dispatch.__bootstrap_code__
+                dispatch.__defaults__ = None
+                dispatch.__kwdefaults__ = None
+            raise
+
+    def _compile(self):
         """Finalize this overload.
 
         This will populate the type maps and replace the functions decorated
